@@ -79,7 +79,7 @@ theorem paramRepr_default (pr : Char → Bool) (p : Param) (d : PVal) (hd : p.de
   unfold paramRepr
   split
   · rfl
-  · simp [hdpd, hd, heq]
+  · simp [hdpd, isDefaultVal, hd, heq]
 
 /-- adding a parameter that takes no part leaves the registry text unchanged, wherever it is declared -/
 theorem registryRepr_add_unpersisted (pr : Char → Bool) (p : Param) (ps : List Param)
